@@ -107,18 +107,20 @@ func (f *Merge) Call(s *slip.Scope, args slip.List, depth int) (result slip.Obje
 			k1 = keyFunc.Call(s, slip.List{k1}, d2)
 			k2 = keyFunc.Call(s, slip.List{k2}, d2)
 		}
+		// The merge is stable, an element of sequence-2 only goes first if
+		// it is strictly less than the element of sequence-1.
 		var less bool
 		if predicate == nil {
-			less = sortLess(k1, k2)
+			less = sortLess(k2, k1)
 		} else {
-			less = predicate.Call(s, slip.List{k1, k2}, d2) != nil
+			less = predicate.Call(s, slip.List{k2, k1}, d2) != nil
 		}
 		if less {
-			rlist = append(rlist, seq1[0])
-			seq1 = seq1[1:]
-		} else {
 			rlist = append(rlist, seq2[0])
 			seq2 = seq2[1:]
+		} else {
+			rlist = append(rlist, seq1[0])
+			seq1 = seq1[1:]
 		}
 	}
 	switch rt {
